@@ -4,7 +4,6 @@
 // LICENSE file in the root directory of this source tree.
 
 use alloc::vec::Vec;
-use core::cmp;
 
 use math::StarkField;
 
@@ -307,12 +306,9 @@ impl<B: StarkField> AirContext<B> {
         let trace_length = self.trace_len();
         let transition_divisior_degree = trace_length - self.num_transition_exemptions();
 
-        // we use the identity: ceil(a/b) = (a + b - 1)/b
-        let num_constraint_col =
-            (highest_constraint_degree - transition_divisior_degree + trace_length - 1)
-                / trace_length;
-
-        cmp::max(num_constraint_col, 1)
+        // a composition polynomial of degree d has d + 1 coefficients, and each column holds
+        // trace_length of them: we need floor(d / trace_length) + 1 columns
+        (highest_constraint_degree - transition_divisior_degree) / trace_length + 1
     }
 
     // DATA MUTATORS
